@@ -110,6 +110,42 @@ def sched_world(procs, n_ticks):
     return spec, [f'p{i}' for i in range(len(procs))]
 
 
+# update values whose shape a transport layer might "normalise"
+EDGE_VALUES = [{}, [], None, 0, '', {'a': {}}, {'a': {'b': {}}}, (),
+               {'_value': {}, '_updater': 'set'}, False, {'k': 0}]
+
+
+def values_world(i, j, as_step):
+    """One process (or step) whose 'set' variables receive two values of
+    EDGE_VALUES in turn - as a leaf update and nested one level down."""
+    box = {'_default': {'k': 1}, '_updater': 'set', '_emit': True}
+    seq = {n: {'port': {'box': {'$lit': EDGE_VALUES[v]},
+                        'deep': {'box': {'$lit': EDGE_VALUES[v]}},
+                        'n': 1}}
+           for n, v in ((0, i), (1, j))}
+    if as_step:
+        seq = {n + 1: u for n, u in seq.items()}
+    probe = {'cls': 'S' if as_step else 'P', 'pid': 'p', 'ts': 1,
+             'log_states': False,
+             'schema': {'port': {'box': dict(box),
+                                 'deep': {'box': dict(box)},
+                                 'n': {'_default': 0, '_emit': True}}},
+             'update': {'$n': seq, '$else': {'port': {'n': 1}}}}
+    spec = {'processes': {'tick': {
+        'cls': 'P', 'pid': 'tick', 'ts': 1, 'log_states': False,
+        'schema': {'tk': {'n': {'_default': 0, '_emit': True}}},
+        'update': {'tk': {'n': 1}}}},
+        'steps': {}, 'flow': {},
+        'topology': {'tick': {'tk': ('tks',)}, 'p': {'port': ('store',)}},
+        'script': [('update', 1)] * 3}
+    if as_step:
+        spec['steps']['p'] = probe
+        spec['flow']['p'] = []
+    else:
+        spec['processes']['p'] = probe
+    return spec, ['p']
+
+
 def steps_world(n_ticks):
     leaf = {'_default': 0, '_emit': True}
     setleaf = {'_default': 0, '_updater': 'set', '_emit': True}
@@ -510,6 +546,11 @@ def run_job(job, acc):
         _, n_ticks, par, stop = job
         spec, names = steps_world(n_ticks)
         tag = f'steps:{stop[0]}'
+    elif kind == 'values':
+        _, i, j, as_step = job
+        spec, names = values_world(i, j, as_step)
+        par, stop = ('p',), ('full',)
+        tag = 'values:' + ('step' if as_step else 'process')
     elif kind == 'hist':
         _, history, issuer, ts_pair = job
         spec = hist_world(history, issuer, ts_pair, False)
@@ -625,6 +666,14 @@ def jobs(ctx):
                 for issuer in ('process', 'step'):
                     out.append(('struct', op, tick, ts, 0, issuer,
                                 n_ticks + 1, False, 'multi'))
+    # update values of every "empty" shape through the pipe
+    n_vals = len(EDGE_VALUES)
+    for i in range(n_vals):
+        for j in range(n_vals):
+            if ctx.quick and (i + j) % 3 and i != j:
+                continue
+            for as_step in (False, True):
+                out.append(('values', i, j, as_step))
     for sub in (('q1',), ('q2',), ('q1', 'q2')):
         for tick in (0, 1):
             for issuer in ('process', 'step'):
